@@ -27,11 +27,11 @@ Known findings: F15 (reverse of user-ordered changes), F18 (merge without LYD_DI
 F173 (NULL passed to strcmp in lyd_diff_is_redundant), F174 (stale `data` after apply), F154 (leak in apply; found by component
 life as well and repaired at HEAD) — recognised by their specific signatures; everything else that breaks a law is a violation.
 """
-import itertools, json, os
+import itertools, json, os, re
 from vlib import treegen as tg, paths
 from checks import c06
 
-LEAN_TARGETS = ["LyModel.Props.C13", "LyModel.Props.C13Merge", "LyModel.Props.C13Tree"]
+LEAN_TARGETS = ["LyModel.Props.C13", "LyModel.Props.C13Merge", "LyModel.Props.C13Tree", "LyModel.Props.C13RevUO"]
 AUDIT = "Audit/C13.lean"
 GENERATED = ["Diff13"]
 HARNESS = "api_diff13"
@@ -460,7 +460,8 @@ def nontriv(line, reply):
     return not (reply[0] == "ok" and len(reply) > 1 and reply[1] == "-")
 
 
-def process(cx, schemas, cases, tag, reverse=True, merge=True, laws_every=4, merge_opts=((0, 0), (1, 0), (0, 1), (1, 1))):
+def process(cx, schemas, cases, tag, reverse=True, merge=True, laws_every=4, merge_opts=((0, 0), (1, 0), (0, 1), (1, 1)),
+            on_reverse=None):
     cases = build_trees(cx, schemas, cases)
     fx = fx_token(cx)
     # ---- 1. the diffs (correspondence shared with C06; gives the features for the fragment and the classification)
@@ -595,6 +596,8 @@ def process(cx, schemas, cases, tag, reverse=True, merge=True, laws_every=4, mer
         r = ri.get(i, ["err", "NoReply"])
         if mo is None:
             eval_reverse(cx, c, o, r, i, rm.get(i))
+            if on_reverse is not None:
+                on_reverse(c, o, r)
         else:
             eval_merge(cx, c, o, mo, r, i)
     # ---- 4. more laws (impl only) on a subset
@@ -851,21 +854,110 @@ def tiny_spaces():
     return out
 
 
+def reverse_repaired_in_source():
+    """the switch the extractor read off src/diff.c for this run (Generated/Diff13.lean)"""
+    try:
+        t = open(os.path.join(paths.LEAN, "LyModel", "Generated", "Diff13.lean")).read()
+    except OSError:
+        return False
+    return "def reverseUserordRepaired : Bool := true" in t
+
+
+def uo_ops(forest, name="ul"):
+    """the create / delete / move nodes of the user-ordered (leaf-)list `name` in a diff, in sibling order:
+    (op, identity, anchor, original anchor) with op in d c m, '-' = first place, '?' = metadata missing"""
+    def ident(n):
+        return str(int(n.val) if n.sn.kind == "leaflist" else int(n.kids[0].val))
+
+    def anc(n, mname):
+        v = meta(n, mname)
+        if v is None:
+            return "?"
+        if v == b"":
+            return "-"
+        if n.sn.kind == "leaflist":
+            return str(int(v))
+        m = re.match(rb"^\[k='(\d+)'\]$", v)
+        return str(int(m.group(1))) if m else "!" + v.decode("latin-1")
+    out = []
+    for n, op, own, par in walk_eff(forest):
+        if n.sn.is_userord() and n.sn.name == name and own in ("create", "delete", "replace"):
+            out.append(({"delete": "d", "create": "c", "replace": "m"}[own], ident(n), anc(n, anchor_name(n.sn)),
+                        anc(n, "orig-" + anchor_name(n.sn))))
+    return out
+
+
+def core_ops(t):
+    """reply field of the driver op `uocore` (d<k>@<orig>  c<k>@<anchor>  m<k>@<anchor>@<orig>, ';' between, '-' = none) as tuples"""
+    out = []
+    for x in ([] if t == "-" else t.split(";")):
+        f = x[1:].split("@")
+        out.append({"d": lambda: ("d", f[0], "?", f[1]), "c": lambda: ("c", f[0], f[1], "?"), "m": lambda: ("m", f[0], f[1], f[2])}[x[0]]())
+    return out
+
+
+def pinned_reversal(fwd):
+    """what lyd_diff_reverse_all WITHOUT the repair of F15 makes of the operations `fwd`: same order, create <-> delete with the
+    metadata left as it is (a created node carries orig-*, a deleted one the anchor), the anchors of a move switched"""
+    return [{"d": ("c", k, "?", o), "c": ("d", k, a, "?"), "m": ("m", k, o, a)}[op] for op, k, a, o in fwd]
+
+
+def core_tie(cx, kind, pairs, seen):
+    """The list core of the theorems (Diff/UserOrd*.lean: UO.diffU' with original anchors, UO.reverseU) against libyang's diff nodes:
+    for every exhaustive pair the operations of lyd_diff_siblings on the list `ul` are UO.diffU' (always), and those of
+    lyd_diff_reverse_all are UO.reverseU of them when the repair of F15 is in the source, the pinned shape otherwise."""
+    keys = sorted(set(pairs.values()))
+    tok = lambda q: ".".join(str(k) for k in q) or "-"
+    lines = ["u%s%d diff13 uocore %s %s" % (kind, i, tok(x), tok(y)) for i, (x, y) in enumerate(keys)]
+    rm = cx.run_model(lines)
+    core = {}
+    for l, xy in zip(lines, keys):
+        r = rm.get(l.split()[0], ["err", "NoReply"])
+        if r[0] != "ok" or len(r) != 3:
+            cx.disagree(COMP, l, ["ok", "?", "?"], r)
+            continue
+        core[xy] = (core_ops(r[1]), core_ops(r[2]))
+    repaired = reverse_repaired_in_source()
+    for c, o, r in seen:
+        xy = pairs.get(id(c))
+        if xy not in core or o not in c.D1:
+            continue
+        fwd, rev = core[xy]
+        where = "uocore %s %s %s opts=%d nested=%d" % (kind, tok(xy[0]), tok(xy[1]), o, int(bool(c.A and c.A[0].sn.kind == "container")))
+        got = uo_ops(c.D1[o])
+        cx.count((where, "fwd"), False, "uocore:forward")        # derived from requests already counted
+        if got != fwd:
+            cx.disagree(COMP, where + " [forward diff]", ["ok", repr(got)], ["ok", repr(fwd)])
+        if r[0] != "ok":
+            continue
+        got = uo_ops(tg.untok(c.s, r[1]))
+        want = rev if repaired else pinned_reversal(fwd)
+        cx.count((where, "rev"), False, "uocore:reversed(%s)" % ("repaired" if repaired else "pinned"))
+        if got != want:
+            cx.disagree(COMP, where + " [reversed diff, %s source]" % ("repaired" if repaired else "pinned"),
+                        ["ok", repr(got)], ["ok", repr(want)])
+
+
 def exhaustive_reverse(cx):
     """all ordered pairs of duplicate-free user-ordered sequences over <= n keys (inside a container; top level for a sample)"""
     plan = [("list", cx.n(4, 4)), ("leaflist", cx.n(4, 4)), ("keyless", cx.n(3, 4)), ("statell", cx.n(3, 4)), ("statelist", cx.n(3, 3))]
     total = 0
     for kind, nk in plan:
         s, seqs, tree = c06.userord_cases(cx, kind, nk)
-        cases = []
+        cases, pairs, seen = [], {}, []
         for nested in (True, False):
             for ia, x in enumerate(seqs):
                 for ib, y in enumerate(seqs):
                     if nested or (ia * 7 + ib) % 11 == 0:
                         cases.append(Case(s, tree(x, nested), tree(y, nested), None, "userord-" + kind))
+                        pairs[id(cases[-1])] = (tuple(x), tuple(y))
         total += len(cases)
         before = cx.dist["law:reverse:fails"], cx.dist["law:reverse:holds"]
-        process(cx, [s], cases, tag="x" + kind, merge=False, laws_every=cx.n(9, 3))
+        process(cx, [s], cases, tag="x" + kind, merge=False, laws_every=cx.n(9, 3),
+                on_reverse=(lambda c, o, r: seen.append((c, o, r))) if kind in ("list", "leaflist") else None)
+        if kind in ("list", "leaflist"):
+            # the identity-addressed kinds: the list core of userord_apply_diff / userord_reverse_apply against libyang's diff nodes
+            core_tie(cx, kind, pairs, seen)
         cx.notes.append("exhaustive (reverse) %s <= %d keys: %d of %d (pair, option) evaluations fail" % (
             kind, nk, cx.dist["law:reverse:fails"] - before[0],
             cx.dist["law:reverse:fails"] - before[0] + cx.dist["law:reverse:holds"] - before[1]))
